@@ -1,4 +1,5 @@
 import QcoVerif.Lemmas.OpenQL
+import QcoVerif.Generated.GateTables
 /-
   C15 — OpenQL export is the in-order image of the circuit.
 
@@ -33,6 +34,18 @@ open Qco
 def gateNames : List (Cls × String) :=
   [(.reset, "prepz"), (.hadamard, "h"), (.identity, "i"), (.measure, "measure"), (.rx180, "x180"), (.rx90, "x90"),
    (.rxm90, "mx90"), (.ry180, "y180"), (.ry90, "y90"), (.rym90, "my90")]
+
+/-- the entry of a class in the model's OpenQL table, in the vocabulary of the generated table. -/
+def qlEntry (c : Cls) : String :=
+  match c with
+  | .barrier => "*BarrierOperationsFactory"
+  | .wait => "*WaitOperationsFactory"
+  | .cphase => "*CompositeCPhaseOperationsFactory"
+  | c => c.qlName.getD ""
+
+/-- **the model's instruction table is the live `OpenQLFactoryManager` table** (regenerated from the code on every run). -/
+theorem openql_table_matches_source :
+    Gen.openqlTable = Cls.all.map (fun c => (c.name, qlEntry c)) := by decide +kernel
 
 /-- ten classes become `gate(name, [q])`; a barrier `barrier(qubits)`; a wait `wait([q], int(duration))`;
     a controlled phase `cz c t; barrier [c, t]; update_ph c; update_ph t`. -/
